@@ -351,6 +351,11 @@ WalkOK      == \A r \in Live : TopDown(r, Bfs(<<r>>))     \* the reference walk 
 
 WellFormed == WF(owner, parent, kids, root) /\ DeadClean /\ Unborn
 
+\* C12, over explicit functions (used by the trace module on a decoded DOM before adopting it)
+UidOK(o, u, us) ==
+    /\ \A r1, r2 \in Refs : (r1 # r2 /\ o[r1] # NoDom /\ o[r1] = o[r2] /\ u[r1] # NoUid) => u[r1] # u[r2]
+    /\ \A d \in Doms : us[d] = {u[r] : r \in {r \in Refs : o[r] = d}} \ {NoUid}
+
 \* C12
 UidDistinct == \A r1, r2 \in Live :
                   (r1 # r2 /\ owner[r1] = owner[r2] /\ uid[r1] # NoUid) => uid[r1] # uid[r2]
